@@ -1,6 +1,7 @@
 package main
 
 import (
+	"go/constant"
 	"go/ast"
 	"go/token"
 	"go/types"
@@ -615,6 +616,8 @@ func rulesC12(c *Ctx) {
 		c.Pin("lookupTool range loops", rng, 2)
 	})
 
+	ruleNoSilent200(c, "R-C12-10", []string{pM}, nil, 15, 70)
+
 	c.Rule("R-C12-4", "header bindings are values, not views: the path recorded for each x-mcp-header annotation is a fresh slice, never an append onto the recursion's shared prefix", func() {
 		cp := c.Fn(pM, "", "collectParamHeaderAnnotations")
 		// the recursion's path prefix: the []string parameter
@@ -1007,4 +1010,112 @@ func typeAssertVars(f *Func, pkgPath, name string) (types.Object, types.Object) 
 		}
 	})
 	return a, b
+}
+
+// ruleNoSilent200: in every function that holds an http.ResponseWriter, no path from entry to a return leaves the
+// response untouched. "Touched" is any use of the writer other than reading or setting headers: WriteHeader, Write, a call
+// that is given the writer (http.Error, writeJSONRPCError, a delegate handler), storing it for another goroutine, or a
+// closure that captures it. A return on an untouched path is an implicit "200 OK" with an empty body — for a rejection path
+// that is the wrong status, for an accepting path the caller's handler never ran.
+func ruleNoSilent200(c *Ctx, id string, rels []string, keep func(f *Func) bool, minF, minR int) {
+	c.Rule(id, "no silent 200: every return of a function holding the http.ResponseWriter lies behind a use of the writer (status, body, delegation); a refusal that forgets its http.Error is an accepted request with an empty 200", func() {
+		nf, nr := 0, 0
+		for _, rel := range rels {
+			for _, f := range c.funcsWithLits(rel) {
+				if f.Body == nil {
+					continue
+				}
+				var w *types.Var
+				for _, p := range f.NonRecvParams() {
+					if isNamedType(p.Type(), "net/http", "ResponseWriter") {
+						w = p
+					}
+				}
+				if w == nil || (keep != nil && !keep(f)) {
+					continue
+				}
+				nf++
+				c.touch(f)
+				g := f.Graph()
+				touches := func(v int) bool {
+					n := g.Node(v)
+					if n == nil {
+						return false
+					}
+					hit := false
+					ast.Inspect(n, func(x ast.Node) bool {
+						if hit {
+							return false
+						}
+						switch y := x.(type) {
+						case *ast.FuncLit:
+							if f.Mentions(y, w) {
+								hit = true
+							}
+							return false
+						case *ast.CallExpr:
+							for _, a := range y.Args {
+								if f.ObjOf(a) == types.Object(w) {
+									hit = true
+								}
+							}
+							if sel, ok := ast.Unparen(y.Fun).(*ast.SelectorExpr); ok && f.ObjOf(sel.X) == types.Object(w) && sel.Sel.Name != "Header" {
+								hit = true
+							}
+						case *ast.AssignStmt:
+							for _, r := range y.Rhs {
+								if f.ObjOf(r) == types.Object(w) {
+									hit = true
+								}
+							}
+						case *ast.KeyValueExpr:
+							if f.ObjOf(y.Value) == types.Object(w) {
+								hit = true
+							}
+						}
+						return true
+					})
+					return hit
+				}
+				ends := append([]int{}, g.Exits...)
+				for i, e := range ends {
+					// a return that reports "proceed" (a true among its results) leaves the response to the caller
+					if r, isR := g.Node(e).(*ast.ReturnStmt); isR {
+						proceed := false
+						for _, x := range r.Results {
+							if cv := f.ConstVal(x); cv != nil && cv.Kind() == constant.Bool && constant.BoolVal(cv) {
+								proceed = true
+							}
+						}
+						if proceed {
+							continue
+						}
+						// one reasoned exemption: acquireStream's "nothing more to do" return. A resumed stream that is complete and has
+						// nothing left to replay is answered with an empty 200 event stream, which is what the headers set so far say.
+						if f.Name() == "(*streamableServerConn).acquireStream" {
+							replayDone := false
+							for _, cv := range g.guardingConds(e) {
+								if ce, isE := g.Node(cv).(ast.Expr); isE {
+									for _, call := range f.AllCalls(ce, false) {
+										if fn := f.Callee(call); fn != nil && fn.Name() == "doneLocked" {
+											replayDone = true
+										}
+									}
+								}
+							}
+							if replayDone {
+								c.Ok("responds:"+f.Name()+":replay-complete", f, r, "exempt: the stream is complete and fully replayed; an empty 200 event stream is the answer")
+								continue
+							}
+						}
+					}
+					nr++
+					ok, path := g.DominatedBy(e, touches)
+					c.Check(ok, "responds:"+f.Name()+"#"+itoa(i), f, g.Node(e), "this return is reached only after the response was written or handed on %s", g.PathString(path))
+				}
+			}
+		}
+		c.Pin("functions holding a ResponseWriter", nf, minF)
+		c.Pin("their returns", nr, minR)
+	})
 }
